@@ -23,10 +23,14 @@ VARIABLES hist, last, fin
 svars == <<vars, hist, last, fin>>
 
 (* x performs a step: leaves the gate it waits at (if any), will wait at `after` ("" = keeps running) *)
-Rel(x, after) == /\ hist' = hist \o (IF last[x] = "" THEN <<>> ELSE <<last[x]>>)
-                              \o (IF after = "" THEN <<>> ELSE <<after \o "+">>)
-                 /\ last' = [last EXCEPT ![x] = IF after = x \o "@ret" THEN "" ELSE after]
-                 /\ UNCHANGED fin
+(* the starter and the End a processor makes inside OnStart run in the goroutine that calls tracer.Start, before   *)
+(* anybody else has the span: nothing to steer                                                                  *)
+Quiet(x) == WithStart /\ x \in {"st", StartEnder}
+Rel(x, after) == IF Quiet(x) THEN UNCHANGED <<hist, last, fin>> ELSE
+                 (/\ hist' = hist \o (IF last[x] = "" THEN <<>> ELSE <<last[x]>>)
+                               \o (IF after = "" THEN <<>> ELSE <<after \o "+">>)
+                  /\ last' = [last EXCEPT ![x] = IF after = x \o "@ret" THEN "" ELSE after]
+                  /\ UNCHANGED fin)
 G(x, point) == x \o "@" \o point
 OnEndGate(e, ps) == IF ps = <<>> THEN "" ELSE G(e, "onend:" \o Head(ps))
 
@@ -38,9 +42,12 @@ Blocked(y) == \/ mu \notin {"none", y} /\ pc[y] \in LockWait
               \/ prov.mu \notin {"none", y} /\ pc[y] \in {"glock", "slock", "ulock", "reent"}
               \/ prov.mu = y /\ pc[y] = "reent"                                   \* blocked on itself for good
               \/ pc[y] = "swait" /\ \E g \in WaitFor : pc[g] # "done"
+              \/ pc[y] = "idle" /\ ~CanCall(y)
+              \/ y = "st" /\ pc[y] = "onstart" /\ StartEnder # "none" /\ pc[StartEnder] # "done"
 Allowed(x) == \A y \in Procs : (last[y] = "" /\ pc[y] # "done" /\ ~Blocked(y)) => y = x
 
 SimNext ==
+  \/ Allowed("st") /\ StartNext /\ Rel("st", "")
   \/ \E e \in Enders : Allowed(e) /\
         \/ ECall(e) /\ Rel(e, "")
         \/ ELock(e) /\ Rel(e, "")
@@ -94,6 +101,6 @@ Finish == /\ ~fin /\ AllDone
           /\ fin' = TRUE /\ UNCHANGED <<vars, hist, last>>
 
 SimInit == /\ Init /\ hist = <<>> /\ fin = FALSE
-           /\ last = [x \in Procs |-> G(x, "call")]
+           /\ last = [x \in Procs |-> IF Quiet(x) THEN "" ELSE G(x, "call")]
 SimSpec == SimInit /\ [][(~fin /\ ~AllDone /\ SimNext) \/ Finish]_svars
 =============================================================================
